@@ -54,7 +54,7 @@ def write_fasta(path, entries, width=60):
 
 
 def _read(path, **kw):
-    return core.import_mokapot().read_fasta(str(path), **kw)
+    return core.import_mokapot().read_fasta(path, **kw)
 
 
 def _check_structure(res, d, prot_peps, entries, prefix="decoy_", kw=None, where="", orders=None, rng=None):
@@ -64,8 +64,17 @@ def _check_structure(res, d, prot_peps, entries, prefix="decoy_", kw=None, where
     canon = None
     orders = orders if orders is not None else [list(range(len(entries))), list(range(len(entries)))[::-1]]
     for oi, order in enumerate(orders):
-        path = write_fasta(d / "x.fasta", [entries[i] for i in order])
-        c = core.Call(_read, path, decoy_prefix=prefix, **kw)
+        ordered = [entries[i] for i in order]
+        if oi % 2 == 1 and len(ordered) >= 2:
+            # the same database split over two files, handed over as a tuple / list of str or Path
+            cut = len(ordered) // 2
+            pa = write_fasta(d / "x1.fasta", ordered[:cut])
+            pb = write_fasta(d / "x2.fasta", ordered[cut:])
+            path = (str(pa), pb) if oi % 4 == 1 else [pa, str(pb)]
+            c = core.Call(core.import_mokapot().read_fasta, path, decoy_prefix=prefix, **kw)
+        else:
+            path = write_fasta(d / "x.fasta", ordered)
+            c = core.Call(_read, path if oi % 4 else str(path), decoy_prefix=prefix, **kw)
         res.count("read_fasta_calls")
         wit = {"proteins": {k: sorted(v) for k, v in list(prot_peps.items())[:12]}, "order": order[:12], "where": where}
         if not c.ok:
